@@ -23,10 +23,19 @@ def series(ind, field=None):
     return out
 
 
-def run_batch(cfg, rows, prepare=None, inter=None, sibling_input=None, **extra):
+def run_batch(cfg, rows, prepare=None, inter=None, sibling_input=None, enc=None, **extra):
     """-> (indicator, None) or (None, Violation).  inter: a maintenance operation after the first inter["at"] candles
     (the rest is then appended): by C14 it leaves the batch state, so the definitions apply unchanged"""
     try:
+        if enc and enc != "candle" and not prepare and not inter:
+            # the same data handed over as dicts / lists (C19 judges the encodings as such; here they only vary the
+            # path by which the candles reach the indicator)
+            from hxv.props.c19 import encode
+
+            ind = build_indicator(cfg, candles=[], **extra)
+            ind.append(encode(rows, enc))
+            ind.calculate()
+            return ind, None
         candles = mk_candles(rows)
         if prepare:
             prepare(candles)
